@@ -1,8 +1,9 @@
 import OVM.IO.Ovmb.FramingLemmas
 import OVM.IO.Ovmb.RoundTripExample
 import OVM.IO.Ovmb.RoundTripPermitted
+import OVM.IO.Ovmb.RoundTripWriterLayout
 /-
-  C06, OVMB half — the format relation and the parts of the round trip that are theorems so far.
+  C06, OVMB half — the format relation and the end-to-end round-trip theorems.
 
   Subject: lean/OVM/IO/{Prim,Codec}.lean (primitive and property-value codecs), Ovmb/{Format,Encode,Permissive,
   Decode}.lean (abstract file, writer, the *permitted encodings* relation `Encodes`, reader).  Constants come
@@ -28,11 +29,14 @@ import OVM.IO.Ovmb.RoundTripPermitted
   `valence * count` of a fixed-valence chunk, which the reader multiplies in 32 bits, so the statement without
   the bound is false of the model (and of the code) for larger meshes, see `writer_roundtrip_limit`.
   Lemmas: OVM/IO/Ovmb/RoundTrip{LayoutBase,Layout,Permitted}.lean (`stOf`, `CurOk`, `lstep_*`, `layout_run`).
-  NOT a theorem here (evaluated by the judge on every generated mesh, tools/props/io_ovmb.py):
-  `encodeWith (writerLayout F) F = encode F` and `ValidLayout (writerLayout F) F` (the writer's bytes are one of
-  the permitted encodings) — the writer's own round trip is proved directly instead; and permitted encodings
-  read into tetrahedral / hexahedral targets or with topology check (`Accepts` is stated for whole files, a
-  layout may interleave faces and cells).
+  **The writer's bytes conform to the format description**: `writer_bytes_permitted` — for every well-formed `F`,
+  `Encodes (encode F) F` (`ValidLayout (writerLayout F) F` and `encodeWith (writerLayout F) F = encode F`;
+  OVM/IO/Ovmb/RoundTripWriterLayout.lean).
+  NOT a theorem here (evaluated by the judge on every generated mesh and layout, tools/props/io_ovmb.py):
+  permitted encodings other than the writer's read into tetrahedral / hexahedral targets or with topology check
+  (`Accepts` is stated for whole files, a layout may interleave faces and cells, so acceptance of a face is
+  evaluated against a prefix of the edges); the writer's own bytes are covered for every accepting target by
+  `writer_roundtrip`.
 -/
 namespace OVM.Props.C06
 open OVM.Ovmb OVM.Gen.Ovmb Dec
@@ -49,6 +53,10 @@ theorem permitted_roundtrip : RoundtripStatement := by
   intro cfg F bytes hwf ⟨L, hval, hb⟩ ⟨hk, ht⟩ hsize hnf hnc
   subst hb
   exact decode_encodeWith cfg F hk ht L hwf hval hsize hnf hnc
+
+/-- **the bytes the writer produces are one of the encodings the format description permits** -/
+theorem writer_bytes_permitted (F : File) (hwf : WFFile F = true) : Encodes (encode F) F :=
+  ⟨writerLayout F, (writerLayout_spec F hwf).1, (writerLayout_spec F hwf).2.symm⟩
 
 /-- little-endian integers of any width round-trip -/
 theorem int_roundtrip (k v : Nat) (h : v < 256 ^ k) (rest : Bytes) : uN k (leN k v ++ rest) = .ok (v, rest) :=
@@ -140,6 +148,8 @@ example : decode Example.polyCfg (encode Example.tetFile) = .ok Example.tetFile 
 example : decode Example.tetCfg (encode Example.tetFile) = .ok Example.tetFile :=
   writer_roundtrip _ _ Example.tetFile_wf Example.tetFile_accepts Example.tetFile_size Example.tetFile_faces
     Example.tetFile_cells
+
+example : Encodes (encode Example.tetFile) Example.tetFile := writer_bytes_permitted _ Example.tetFile_wf
 
 /-! non-vacuity of `permitted_roundtrip` (evaluation on one input, a test): an alternative layout of the
     one-tetrahedron file (`Example.altLayout`) — vertices in two spans (the second float-encoded), edges with 16-bit handles and
